@@ -15,5 +15,5 @@ for c in "$@"; do
   grep -E "quick:|MACHINERY" /var/tmp/benignout.txt | cut -c1-60
   grep -E " x " /var/tmp/benignout.txt | head -3 | cut -c1-220
 done
-rm -f /verif/replays/*.json
+rm -rf /verif/.work/scratch-replays /verif/.work/scratch-evidence
 rm -rf $S
